@@ -9,6 +9,7 @@ moves only.
 import ast
 
 from sa.model import AnalysisError, walk_no_nested, norm, call_name, stmt_of
+from sa.consteval import TOP
 from sa.util import fact_atom, cmp_parts, const_value, contains
 from .proles import ParserRoles
 from . import c01
@@ -39,12 +40,16 @@ def run(ctx):
     p11(ctx, R)
     g7(ctx, R)
     g8(ctx, R)
+    g9(ctx, R)
     t3p(ctx, R)
     # the tree of THIS parse only: every parser attribute a handler writes (incl. result) is re-initialised per parse (rule H2 of C13)
     from .c13 import h2
     h2(ctx, R)
     # the tree is built from the token stream: the token rules must cut the text as RFC 5228 does (L1-L4 of C01)
     c01.lexer_rules(ctx, R)
+    # parse_file must hand the file's bytes to parse() unchanged (X12 of C02): newline translation or decoding changes the values in the tree
+    from .c02 import x12
+    x12(ctx, R)
 
 
 def container_writes(ctx, attr, modules):
@@ -308,6 +313,65 @@ def g8(ctx, R):
     ctx.need("G8", "optional-slot stores", k, 1)
 
 
+def g9(ctx, R):
+    """`nextargpos = pos + 1` is an index into args_definition: pos must be the absolute position of the slot just filled."""
+    ctx.rule("G9", "the slot cursor advances to the absolute position of the filled slot + 1")
+    cna = R.check_next_arg
+    sn = cna.params[0]
+    stores = [a for a in walk_no_nested(cna.node) if isinstance(a, ast.Assign) and any(
+        isinstance(t, ast.Attribute) and t.attr == "nextargpos" and isinstance(t.value, ast.Name) and t.value.id == sn for t in a.targets)]
+    if not stores:
+        raise AnalysisError("G9", "no store of the slot cursor in check_next_arg")
+    for st in stores:
+        v = st.value
+        idx = v.left.id if isinstance(v, ast.BinOp) and isinstance(v.op, ast.Add) and isinstance(v.left, ast.Name) \
+            and isinstance(v.right, ast.Constant) and v.right.value == 1 else None
+        if idx is None:
+            ctx.violation("G9", cna, "cursor-step:%s" % norm(v), "the slot cursor is set to %s, not to <position of the filled slot> + 1" % norm(v), node=st)
+            continue
+        # where does idx come from?
+        verdict = None
+        p = st
+        while p is not None and p is not cna.node:
+            p = getattr(p, "_parent", None)
+            if isinstance(p, ast.While):
+                inits = [a for a in walk_no_nested(cna.node) if isinstance(a, ast.Assign) and any(isinstance(t, ast.Name) and t.id == idx for t in a.targets)]
+                incs = [a for a in walk_no_nested(p) if isinstance(a, ast.AugAssign) and isinstance(a.target, ast.Name) and a.target.id == idx]
+                ok = len(inits) == 1 and norm(inits[0].value).endswith(".nextargpos") and len(incs) == 1 and isinstance(incs[0].op, ast.Add) \
+                    and const_value(ctx.program, cna, incs[0].value) == 1
+                verdict = True if ok else "the index %s of the scan loop is not initialised from the cursor and stepped by one" % idx
+                break
+            if isinstance(p, ast.For):
+                tg, it = p.target, p.iter
+                names = [t.id for t in (tg.elts if isinstance(tg, ast.Tuple) else [tg]) if isinstance(t, ast.Name)]
+                if idx not in names:
+                    continue
+                if isinstance(it, ast.Call) and call_name(it) == "range":
+                    ok = len(it.args) >= 2 and norm(it.args[0]).endswith(".nextargpos") or (len(it.args) == 1)
+                    verdict = True if ok else "range() does not start at the cursor"
+                elif isinstance(it, ast.Call) and call_name(it) == "enumerate" and it.args:
+                    seq = it.args[0]
+                    start = it.args[1] if len(it.args) > 1 else next((k.value for k in it.keywords if k.arg == "start"), None)
+                    sliced_from = seq.slice.lower if isinstance(seq, ast.Subscript) and isinstance(seq.slice, ast.Slice) else None
+                    if sliced_from is None and start is None:
+                        verdict = True  # whole table, positions are absolute
+                    elif sliced_from is not None and start is not None and norm(start) == norm(sliced_from):
+                        verdict = True
+                    else:
+                        verdict = ("enumerate() counts from %s over the table sliced from %s: %s is relative to the slice, not a position in the table"
+                                   % (norm(start) if start is not None else "0", norm(sliced_from) if sliced_from is not None else "0", idx))
+                else:
+                    verdict = "the loop providing %s is not recognised" % idx
+                break
+        if verdict is True:
+            ctx.holds("G9", "%s: %s with %s an absolute position" % (cna.qualname, norm(st), idx))
+        elif verdict is None:
+            raise AnalysisError("G9", "loop providing the index %s not found" % idx)
+        else:
+            ctx.violation("G9", cna, "cursor-relative", "%s: %s" % (norm(st), verdict), node=st,
+                          witness='`set "a" "b" "c";` is accepted (the third value overwrites the first slot); a three-argument command records its values under the wrong names')
+
+
 def t3p(ctx, R):
     ctx.rule("T3'", "reassign_arguments overrides only move values between slots")
     n = 0
@@ -325,6 +389,27 @@ def t3p(ctx, R):
                 if not moved:
                     ok = False
                     ctx.violation("T3'", f, "reassign-invents", "%s stores %s into a slot (not a value moved from another slot)" % (f.qualname, norm(v)), node=st)
+                elif isinstance(v, ast.Call) and (len(v.args) > 1 or v.keywords):
+                    # pop(key, default): when the source slot is empty a value that nobody wrote is recorded
+                    ok = False
+                    ctx.violation("T3'", f, "reassign-invents", "%s moves %s: when the source slot is empty the default is recorded as if it had "
+                                  "been written" % (f.qualname, norm(v)), node=st,
+                                  witness="`if hasflag {` : the tree holds list-of-flags = None and the script is accepted")
+                else:
+                    # the source slot must be known to be filled
+                    cfg_ = ctx.cfg(f)
+                    skey = const_value(ctx.program, f, v.args[0]) if isinstance(v, ast.Call) and v.args else (
+                        const_value(ctx.program, f, v.slice) if isinstance(v, ast.Subscript) else TOP)
+
+                    def src_filled(fc, skey=skey):
+                        e, pol = fact_atom(fc)
+                        cp = cmp_parts(e)
+                        return bool(cp and cp[1] in ("In", "NotIn") and const_value(ctx.program, f, cp[0]) == skey and "arguments" in norm(cp[2])
+                                    and ((cp[1] == "In") == pol))
+                    if skey is not TOP and not all(cfg_.guarded(x, src_filled) for x in cfg_.nodes_for(st)):
+                        ok = False
+                        ctx.violation("T3'", f, "reassign-source-empty", "%s moves slot %r without having tested that it is filled" % (f.qualname, skey),
+                                      node=st, witness="KeyError escapes parse() for a command written without that argument")
             if isinstance(st, ast.Expr) and isinstance(st.value, ast.Call) and call_name(st.value) in ("pop", "clear", "popitem") \
                     and "arguments" in norm(st.value.func.value):
                 ok = False
